@@ -4,6 +4,7 @@
 From Coq Require Import List Bool NArith ZArith.
 Import ListNotations.
 From Setec Require Import Base.SMap Client.Store Client.Lookup Corr.Common.
+From Setec Require Server.DB Server.Http.
 Open Scope N_scope.
 
 Definition V := N.
@@ -11,6 +12,39 @@ Definition V := N.
 (* what a call did: class (0 handle, 1 nil, 2 panic, 3 refused "lookup is not enabled"/other error,
    4 handle after a fetch), number of requests the service saw during the call, and the value token
    read through the handle (0 when there is none) *)
+(* what the scripted HTTP transport does with a request: answer after [delay] ms with [status] and either a
+   JSON api.SecretValue (Some (version, bytes)) or some other body; or hang until the request's context ends *)
+Inductive hscript := HResp (delay : N) (status : N) (body : option (N * V)) | HHang.
+
+(* what setec.Client makes of the response: client.go's status -> sentinel map, as modelled (and proved
+   against the server's error -> status map) in Server/Http.v *)
+Definition cres_of (status : N) (body : option (N * V)) : Http.cres V :=
+  Http.client_of_response
+    (Http.Build_response status match body with Some (v, b) => Http.BodyResult (DB.RVal v b) | None => Http.BodyConst end).
+
+(* ... and what that is for a lookup: only a decoded value is an answer, every sentinel or other error
+   (incl. "not changed" and an undecodable 200) is a failure reported to the callers *)
+Definition svc_of_http (h : hscript) : svc V :=
+  match h with
+  | HHang => SHang
+  | HResp d st body => match cres_of st body with
+                       | Http.CResult (DB.RVal v b) => SAns d v b
+                       | _ => SFail d
+                       end
+  end.
+
+(* ... and for a poll's conditional get *)
+Definition resp_of_http (h : hscript) : resp V :=
+  match h with
+  | HHang => RErr
+  | HResp _ st body => match cres_of st body with
+                       | Http.CResult (DB.RVal v b) => RValue v b
+                       | Http.CNotChanged => RNotChanged
+                       | _ => RErr
+                       end
+  end.
+Definition delay_of (h : hscript) : N := match h with HResp d _ _ => d | HHang => 0 end.
+
 Inductive case :=
 | CPolicy (allow : bool) (decl : list (name * N * V)) (ep : N) (n : name) (svc_has : option (N * V))
           (cls : N) (nreq : N) (tok : V)
@@ -27,6 +61,17 @@ Inductive case :=
           (* the first Cache.Write whose document contains n: happened; the cache's answer (INPUT);
              the bytes the document carries for n; whether the cache's contents included n right after *)
           (a_req : bool)                            (* one more LookupSecret(n) afterwards sent a request *)
+| CFlightH (decl : list (name * N * V)) (n : name) (callers : list caller) (hscripts : list hscript) (wins : list nat)
+           (obs_done : list (N * N * V)) (obs_log : list mark) (maxconc : N)
+           (after_secret after_polled after_cached : bool) (solo : bool)
+           (fl_seen fl_ok : bool) (fl_tok : V) (fl_cached : bool) (a_req : bool)
+           (* as CFlight, but the store talks to the service through the REAL network client setec.Client
+              (client/setec/client.go) over a scripted HTTP transport: the scripts are HTTP responses *)
+| CPollH (decl : list (name * N * V)) (ans : list (name * hscript))
+         (cls : N) (nreqs : list (name * N)) (dur : N) (vals : list (name * V))
+         (* one Refresh through the real client: per requested name the HTTP answer to its conditional
+            get; observed: Refresh's result (0 ok, 1 error), requests per name, virtual duration, the
+            bytes each name serves afterwards *)
 | CLate (decl : list (name * N * V)) (n : name) (first second : option (N * V)) (held : bool)
         (b_cls : N) (b_tok : V) (a_cls : N) (a_tok : V) (a_nreq : N) (served : V) (polled_ver : N).
         (* an overtaken flight (F8): caller A is held between its unknown-name check and its flight; B (if
@@ -120,13 +165,8 @@ Definition check_late decl n (first second : option (N * V)) (held : bool) b_cls
   | None => false
   end.
 
-Definition check (c : case) : bool :=
-  match c with
-  | CLate decl n first second held b_cls b_tok a_cls a_tok a_nreq served polled_ver =>
-      check_late decl n first second held b_cls b_tok a_cls a_tok a_nreq served polled_ver
-  | CPolicy allow decl ep n svc_has cls nreq tok wfail a_secret nreq2 a_polled a_cached =>
-      check_policy allow decl ep n svc_has cls nreq tok wfail a_secret nreq2 a_polled a_cached
-  | CFlight decl n callers scr wn obs_done obs_log maxconc a_secret a_polled a_cached solo fl_seen fl_ok fl_tok fl_cached a_req =>
+Definition check_flight decl n callers scr wn obs_done obs_log maxconc (a_secret a_polled a_cached solo fl_seen fl_ok : bool)
+           (fl_tok : V) (fl_cached a_req : bool) : bool :=
       (* the model WITH a cache; the cache's answer to the (only possible) install flush is an input *)
       match crun n (fuel_for callers) (cinit callers scr wn (init_store true decl) [fl_ok]) with
       | None => false
@@ -152,5 +192,32 @@ Definition check (c : case) : bool :=
           && (if solo then Bool.eqb a_cached landed_has
               else if landed_has then a_cached else if known st n then true else negb a_cached)
           && Bool.eqb a_req (sends_request (policy st EPLookup n))
-      end
+      end.
+
+(* one Refresh through the real client, against Store.refresh of the shared store model *)
+Definition name_n_beq (a b : name * N) : bool := bytes_beq (fst a) (fst b) && (snd a =? snd b).
+Definition check_pollh decl (ans : list (name * hscript)) (cls : N) (nreqs : list (name * N)) (dur : N) (vals : list (name * V)) : bool :=
+  let s := init_store true decl in
+  let reqs := requests (snapshot s 0%Z) in
+  let script n := match List.find (fun '(n', _) => neqb n' n) ans with Some (_, h) => h | None => HHang end in
+  let '(s', _, ok) := refresh s 0%Z (fun n _ => resp_of_http (script n)) in
+  (* exactly ONE request per name of the snapshot - a slow answer is not asked for again *)
+  list_beq name_n_beq (map (fun '(n, _) => (n, 1)) reqs) nreqs
+  && (cls =? (if ok then 0 else 1))
+  (* the requests are made one after the other: the poll lasts as long as the answers take *)
+  && (dur =? fold_left N.add (map (fun '(n, _) => delay_of (script n)) reqs) 0)
+  && forallb (fun '(n, tok) => tok =? val_of s' n) vals.
+
+Definition check (c : case) : bool :=
+  match c with
+  | CLate decl n first second held b_cls b_tok a_cls a_tok a_nreq served polled_ver =>
+      check_late decl n first second held b_cls b_tok a_cls a_tok a_nreq served polled_ver
+  | CPolicy allow decl ep n svc_has cls nreq tok wfail a_secret nreq2 a_polled a_cached =>
+      check_policy allow decl ep n svc_has cls nreq tok wfail a_secret nreq2 a_polled a_cached
+  | CFlight decl n callers scr wn obs_done obs_log maxconc a_secret a_polled a_cached solo fl_seen fl_ok fl_tok fl_cached a_req =>
+      check_flight decl n callers scr wn obs_done obs_log maxconc a_secret a_polled a_cached solo fl_seen fl_ok fl_tok fl_cached a_req
+  | CFlightH decl n callers hscr wn obs_done obs_log maxconc a_secret a_polled a_cached solo fl_seen fl_ok fl_tok fl_cached a_req =>
+      (* the model is the same: the HTTP answers are mapped to what the service did by client.go's map *)
+      check_flight decl n callers (map svc_of_http hscr) wn obs_done obs_log maxconc a_secret a_polled a_cached solo fl_seen fl_ok fl_tok fl_cached a_req
+  | CPollH decl ans cls nreqs dur vals => check_pollh decl ans cls nreqs dur vals
   end.
